@@ -32,6 +32,11 @@ func c01Spec(cas c01Case) sys.Spec {
 	smtp := sys.DefaultSMTP()
 	smtp.RejectDomains = []string{"rej.test"}
 	switch cas.Policy {
+	case "store-default+limit-1":
+		// a recipient refused for exceeding the limit is not a recipient of the transaction
+		smtp.DefaultStore = true
+		smtp.DiscardDomains = []string{"drop.test"}
+		smtp.MaxRecipients = 1
 	case "store-default":
 		smtp.DefaultStore = true
 		smtp.DiscardDomains = []string{"drop.test"}
@@ -50,7 +55,7 @@ func c01Spec(cas c01Case) sys.Spec {
 
 func c01Policy(cas c01Case) model.Policy {
 	p := model.Policy{DefaultAccept: true, Reject: []string{"rej.test"}}
-	if cas.Policy == "store-default" {
+	if strings.HasPrefix(cas.Policy, "store-default") {
 		p.DefaultStore = true
 		p.Discard = []string{"drop.test"}
 	} else {
@@ -198,7 +203,7 @@ func c01Run(c *fw.Ctx) {
 	n := 0
 	for _, be := range []string{"mem", "file"} {
 		for _, naming := range []string{"local", "full", "domain"} {
-			for _, pol := range []string{"store-default", "discard-default", "discard-default+inert-discard-list"} {
+			for _, pol := range []string{"store-default", "discard-default", "discard-default+inert-discard-list", "store-default+limit-1"} {
 				for _, rs := range rcptSeqs {
 					for _, t := range c01Terms {
 						n++
